@@ -140,11 +140,38 @@ def choke_point_rules(prog, res: Result):
     # no alternative creation path for quantity instances
     for cname in ("Quantity", "Money"):
         ci = prog.cls(cname)
-        for meth in ("__init__", "__setstate__", "__reduce__", "__reduce_ex__", "__copy__", "__deepcopy__",
-                     "__getnewargs__", "__setattr__", "__init_subclass__"):
+        for meth in ("__init__", "__setstate__", "__setattr__", "__init_subclass__"):
             res.ob("R05.1", f"{cname}.{meth}", "absent", meth not in ci.methods,
                    f"{cname} defines {meth}: a second way to create or alter instances must round to the quantum",
                    sig=f"alternative instance creation path {meth}", nontrivial=False)
+        # copy / pickle protocol methods (absent today) are fine as long as what they return leads back through
+        # the constructor: the receiver itself, a quantity built by the constructor, or (class, argument tuple)
+        for meth in ("__reduce__", "__reduce_ex__", "__copy__", "__deepcopy__"):
+            if meth not in ci.methods:
+                res.ob("R05.1", f"{cname}.{meth}", "absent or re-creating through the constructor", True, "absent",
+                       nontrivial=False)
+                continue
+            from ..contracts import CaseRunner as _CR
+            fi = ci.methods[meth]
+            extra = {"__reduce_ex__": 1, "__deepcopy__": 1}.get(meth, 0)
+
+            def setup(c, cname=cname, extra=extra):
+                c.new_type("T", **FLAVORS["money" if cname == "Money" else "ref+quantum"])
+                return [c.qty("self", c.unit("us", "T"))] + [OpaqueV("arg")] * extra, {}
+
+            def judge(o):
+                if o.kind == "raise":
+                    return None
+                q, v = o.args[0], o.value
+                if v is q:
+                    return None
+                if isinstance(v, QtyV) and v.fresh:
+                    return judge_qty(o, unit=q.unit, value=VAL(o, 0), max_depth=1)
+                if isinstance(v, TupleV) and len(v.items) >= 2 and isinstance(v.items[0], (ClsV, TypeV)) \
+                        and isinstance(v.items[1], TupleV):
+                    return None
+                return ("alternative instance creation path bypasses the constructor", repr(v))
+            _CR(prog, res, max_depth=8).run("R05.1", fi, f"{cname}.{meth} leads back through the constructor", setup, judge)
     raw = []
     for fi in prog.all_functions():
         for nd in ast.walk(fi.node):
@@ -229,20 +256,7 @@ def run(prog, tier) -> Result:
         cr.run("R05.4", Q("convert"), f"convert [{fl}]", qty_and_unit_same_type(fl),
                lambda o: None if o.kind == "raise" else judge_qty(o, max_depth=1))
 
-    # R05.5 no truncating primitive on the constructor path
-    new = prog.method("Quantity", "__new__")
-    bad = []
-    for n in ast.walk(new.node):
-        if isinstance(n, ast.BinOp) and isinstance(n.op, (ast.FloorDiv, ast.Mod)):
-            bad.append(src_of(n))
-        if isinstance(n, ast.Call) and isinstance(n.func, ast.Name) and n.func.id in ("int", "round", "floor", "float"):
-            bad.append(src_of(n))
-        if isinstance(n, ast.Call) and isinstance(n.func, ast.Attribute) and n.func.attr in ("floor", "ceil", "trunc", "quantize"):
-            bad.append(src_of(n))
-    res.ob("R05.5", "Quantity.__new__", "no truncating / mode-fixed primitive", not bad, f"{bad}",
-           sig="truncating primitive in the constructor", nontrivial=False)
-
-    res.require("R05.1", 20)
+    res.require("R05.1", 15)
     res.require("R05.2", 26)
     res.require("R05.3", 6)
     res.require("R05.4", 60)
